@@ -405,6 +405,20 @@ theorem opt_setitem_colsInv (s : St) (k : String) (v : V) (hk : ppKey k = false)
   | ok s' => exact setitem_colsInv s s' _ _ hk hc h
   | error e => exact hc
 
+/-- the fitter-side treatment of `range_x` touches no other key -/
+theorem fitterFp_other (fp d : Settings) (k : String) (hk : k ≠ "range_x") : fitterFp fp d k = fp k := by
+  unfold fitterFp
+  cases fp "range_x" with
+  | none => rfl
+  | some v =>
+    cases d "range_x" with
+    | none => rfl
+    | some dv =>
+      simp only
+      split
+      · simp [Settings.set, hk]
+      · rfl
+
 theorem fitModel_colsInv (d : Settings) (s : St) (kw : List (String × V)) (oe : List (Option Err))
     (g : String → List String)
     (hk : kw.all (fun p => !ppKey p.1) = true) (hc : ColsInv s) : ColsInv (fitModel d s kw oe g).1 := by
@@ -463,7 +477,7 @@ theorem fitModel_colsInv (d : Settings) (s : St) (kw : List (String × V)) (oe :
       else s3) = s4 at hc4 ⊢
     split
     · exact hc4
-    · cases hcc : ctorCheck s4 (withDefaults s4.fp d) with
+    · cases hcc : ctorCheck s4 (fitterFp (withDefaults s4.fp d) d) with
       | error e => simp only; exact hc4
       | ok u =>
         simp only
@@ -489,7 +503,8 @@ theorem fitModel_colsInv (d : Settings) (s : St) (kw : List (String × V)) (oe :
             cases v1 <;> simp at hc4
           | some v2 =>
             rw [h1, h2'] at hc4
-            simp only [withDefaults, h1, h2']
+            simp only [fitterFp_other _ _ "preprocessing" (by decide),
+              fitterFp_other _ _ "preprocessing_options" (by decide), withDefaults, h1, h2']
             exact hc4
 
 theorem step_colsInv (d : Settings) (s : St) (op : Op) (hop : plainOp op = true) (hc : ColsInv s) :
